@@ -280,6 +280,11 @@ impl Server {
     pub fn did_change(&mut self, uri: &str, version: i64, text: &str) -> bool {
         self.notify("textDocument/didChange", json!({"textDocument": {"uri": uri, "version": version}, "contentChanges": [{"text": text}]}))
     }
+    /// one change notification carrying several full-document events (the last one is the document's new content)
+    pub fn did_change_events(&mut self, uri: &str, version: i64, texts: &[&str]) -> bool {
+        let ev: Vec<Value> = texts.iter().map(|t| json!({"text": t})).collect();
+        self.notify("textDocument/didChange", json!({"textDocument": {"uri": uri, "version": version}, "contentChanges": ev}))
+    }
     pub fn did_close(&mut self, uri: &str) -> bool {
         self.notify("textDocument/didClose", json!({"textDocument": {"uri": uri}}))
     }
